@@ -71,6 +71,11 @@ impl<BS: BlockSizes> BlockCipherEncClosure for Closure<'_, BS> {
 
         ecb_enc(cipher, blocks.reborrow());
 
+        if tail.is_empty() && blocks.len() == 1 {
+            // A single-block message is a raw block: nothing to steal or exchange
+            return;
+        }
+
         if tail.is_empty() && blocks.len() > 1 {
             let blocks = blocks.get_out();
             let (last, rest) = blocks.split_last_mut().unwrap();
@@ -98,6 +103,11 @@ impl<BS: BlockSizes> BlockCipherDecClosure for Closure<'_, BS> {
         let (mut blocks, mut tail) = buf.reborrow().into_chunks();
 
         ecb_dec(cipher, blocks.reborrow());
+
+        if tail.is_empty() && blocks.len() == 1 {
+            // A single-block message is a raw block: nothing to steal or exchange
+            return;
+        }
 
         if tail.is_empty() && blocks.len() > 1 {
             let blocks = blocks.get_out();
